@@ -757,6 +757,33 @@ func streamDriver(a *Args) {
 		}
 		lockStepInProcess(res, i, h, c, "")
 	}
+	// (a'') history: an upload of this process failed earlier (its first attempt was refused, the retry acknowledged) -
+	// responses that come afterwards are streamed exactly like the ones before
+	{
+		h0 := handlerScript{Name: "prior", Pieces: []int{6, 5}}
+		hx.Reset("upload-ref-prior", "upload-ref")
+		fs := newFaultServer(nil, nil)
+		ok, blocked, _ := runForwarder(fs.url(), h0, "ref-prior", nil)
+		hx.Emit("CloseDone", "ok", ok, "blocked", blocked)
+		fs.close()
+		if ok && len(fs.acked) == 1 {
+			ref := fs.acked[0]
+			for j, script := range [][]upStep{{{"5xx-close", "end"}, {"ack", "end"}}, {{"reset", "early"}, {"ack", "end"}}} {
+				hx.Reset(fmt.Sprintf("upload-prior-%d", j), fmt.Sprintf("upload:[%s@%s,ack@end]:prior", script[0].Kind, script[0].Pos))
+				fs := newFaultServer(script, ref)
+				ok, blocked, _ := runForwarder(fs.url(), h0, fmt.Sprintf("req-prior-%d", j), nil)
+				hx.Emit("CloseDone", "ok", ok, "blocked", blocked)
+				time.Sleep(5 * time.Millisecond)
+				fs.close()
+			}
+		} else {
+			res.Note("reference run of the earlier upload failed")
+		}
+		for j, c := range [][]int{{1, 1, 1}, {5, 70000, 3}, {700, 1, 5000}, {10, 10, 10}} {
+			h := handlerScript{Name: fmt.Sprintf("lockafter%d", j), Pieces: c, Trailer: j%2 == 0}
+			lockStepInProcess(res, 8000+j, h, c, ":after-a-failed-upload")
+		}
+	}
 	// (a') many lock-step rounds on 12 streams at once, in a child process without a trace: a wake-up that
 	// is lost once in thousands of hand-overs between the handler and the serialiser shows as a stall
 	{
